@@ -133,9 +133,25 @@ pub fn main(args: &[String]) -> i32 {
     let out = arg_value(args, "--out").expect("--out");
     let shards: usize = arg_value(args, "--shards").and_then(|s| s.parse().ok()).unwrap_or(4);
     let thorough = args.iter().any(|a| a == "--thorough");
-    assert_eq!(Blake3_192::<f64::BaseElement>::COLLISION_RESISTANCE, 96);
-    assert_eq!(Rp62_248::COLLISION_RESISTANCE, 124);
-    assert_eq!(Blake3_256::<f64::BaseElement>::COLLISION_RESISTANCE, 128);
+    // the collision resistance each hash function declares and the cap it puts on a proof whose other terms are saturated
+    // (128-bit field, cubic extension, 255 queries, blowup 128, grinding 32): events for Trace_Security (`hasher`)
+    let mut hasher_events: Vec<String> = vec![];
+    {
+        use winter_crypto::hashers::{Rp64_256, RpJive64_256, Sha3_256};
+        let sat = proof_for(128, 3, 7, 32, 10, 255, 4, 31);
+        macro_rules! hev {
+            ($name:expr, $h:ty) => {
+                hasher_events.push(json!({"ev": "hasher", "name": $name, "cr": <$h as Hasher>::COLLISION_RESISTANCE,
+                    "cap_conj": sat.security_level::<$h>(true), "cap_prov": sat.security_level::<$h>(false)}).to_string());
+            };
+        }
+        hev!("blake3_192", Blake3_192<f64::BaseElement>);
+        hev!("blake3_256", Blake3_256<f64::BaseElement>);
+        hev!("sha3_256", Sha3_256<f64::BaseElement>);
+        hev!("rp62_248", Rp62_248);
+        hev!("rp64_256", Rp64_256);
+        hev!("rpjive64_256", RpJive64_256);
+    }
     let gs: Vec<u32> = if thorough { (0..=32).collect() } else { vec![0, 1, 16, 32] };
     let lns: Vec<u32> = if thorough { (3..=30).collect() } else { vec![3, 10, 20, 24] };
     let mut params: Vec<[u32; 6]> = vec![];
@@ -184,6 +200,7 @@ pub fn main(args: &[String]) -> i32 {
         rows += r;
         panics.extend(p);
     }
+    files[0].extend(hasher_events);
     let mut paths = vec![];
     for (i, f) in files.iter().enumerate() {
         let p = format!("{out}/security_{i}.ndjson");
